@@ -241,12 +241,12 @@ Theorem C17_gen_coefficients_2d :
   forall m (sp : list K) (i : idx) (fabs : K -> K) (lam mu : K) (nx ny : Z) (u v : idx -> K),
   let sh := [nx; ny] in let U := [u; v] in
   let s2 c d e := d2 m sh sp d e c i in let s1 c d := d1 m sh sp d c i in
-  bending_pt m sh sp U i = gen_bending2 (s2 u 0 0) (s2 u 0 1) (s2 u 1 1) (s2 v 0 0) (s2 v 0 1) (s2 v 1 1) /\
-  curvature_pt m sh sp U i = gen_curvature2 (s2 u 0 0) (s2 u 1 1) (s2 v 0 0) (s2 v 1 1) /\
-  diffusion_pt m sh sp U i = gen_diffusion2 (s1 u 0) (s1 v 0) (s1 u 1) (s1 v 1) /\
-  tv_pt m sh sp U i fabs = gen_tv2 fabs (s1 u 0) (s1 v 0) (s1 u 1) (s1 v 1) /\
-  div_pt m sh sp U i = gen_divergence2 (s1 u 0) (s1 v 1) /\
-  elasticity_pt m sh sp U i lam mu = gen_elasticity2 lam mu (s1 u 0) (s1 u 1) (s1 v 0) (s1 v 1).
+  bending_pt m sh sp U i = gen_bending2 (s2 u 0%nat 0%nat) (s2 u 0%nat 1%nat) (s2 u 1%nat 1%nat) (s2 v 0%nat 0%nat) (s2 v 0%nat 1%nat) (s2 v 1%nat 1%nat) /\
+  curvature_pt m sh sp U i = gen_curvature2 (s2 u 0%nat 0%nat) (s2 u 1%nat 1%nat) (s2 v 0%nat 0%nat) (s2 v 1%nat 1%nat) /\
+  diffusion_pt m sh sp U i = gen_diffusion2 (s1 u 0%nat) (s1 v 0%nat) (s1 u 1%nat) (s1 v 1%nat) /\
+  tv_pt m sh sp U i fabs = gen_tv2 fabs (s1 u 0%nat) (s1 v 0%nat) (s1 u 1%nat) (s1 v 1%nat) /\
+  div_pt m sh sp U i = gen_divergence2 (s1 u 0%nat) (s1 v 1%nat) /\
+  elasticity_pt m sh sp U i lam mu = gen_elasticity2 lam mu (s1 u 0%nat) (s1 u 1%nat) (s1 v 0%nat) (s1 v 1%nat).
 Proof. exact gen2_ok. Qed.
 Print Assumptions C17_gen_coefficients_2d.
 
@@ -256,18 +256,18 @@ Theorem C17_gen_coefficients_3d :
   let sh := [nx; ny; nz] in let U := [u; v; w] in
   let s2 c d e := d2 m sh sp d e c i in let s1 c d := d1 m sh sp d c i in
   bending_pt m sh sp U i
-    = gen_bending3 (s2 u 0 0) (s2 u 0 1) (s2 u 0 2) (s2 u 1 1) (s2 u 1 2) (s2 u 2 2)
-                   (s2 v 0 0) (s2 v 0 1) (s2 v 0 2) (s2 v 1 1) (s2 v 1 2) (s2 v 2 2)
-                   (s2 w 0 0) (s2 w 0 1) (s2 w 0 2) (s2 w 1 1) (s2 w 1 2) (s2 w 2 2) /\
+    = gen_bending3 (s2 u 0%nat 0%nat) (s2 u 0%nat 1%nat) (s2 u 0%nat 2%nat) (s2 u 1%nat 1%nat) (s2 u 1%nat 2%nat) (s2 u 2%nat 2%nat)
+                   (s2 v 0%nat 0%nat) (s2 v 0%nat 1%nat) (s2 v 0%nat 2%nat) (s2 v 1%nat 1%nat) (s2 v 1%nat 2%nat) (s2 v 2%nat 2%nat)
+                   (s2 w 0%nat 0%nat) (s2 w 0%nat 1%nat) (s2 w 0%nat 2%nat) (s2 w 1%nat 1%nat) (s2 w 1%nat 2%nat) (s2 w 2%nat 2%nat) /\
   curvature_pt m sh sp U i
-    = gen_curvature3 (s2 u 0 0) (s2 u 1 1) (s2 u 2 2) (s2 v 0 0) (s2 v 1 1) (s2 v 2 2) (s2 w 0 0) (s2 w 1 1) (s2 w 2 2) /\
+    = gen_curvature3 (s2 u 0%nat 0%nat) (s2 u 1%nat 1%nat) (s2 u 2%nat 2%nat) (s2 v 0%nat 0%nat) (s2 v 1%nat 1%nat) (s2 v 2%nat 2%nat) (s2 w 0%nat 0%nat) (s2 w 1%nat 1%nat) (s2 w 2%nat 2%nat) /\
   diffusion_pt m sh sp U i
-    = gen_diffusion3 (s1 u 0) (s1 v 0) (s1 w 0) (s1 u 1) (s1 v 1) (s1 w 1) (s1 u 2) (s1 v 2) (s1 w 2) /\
+    = gen_diffusion3 (s1 u 0%nat) (s1 v 0%nat) (s1 w 0%nat) (s1 u 1%nat) (s1 v 1%nat) (s1 w 1%nat) (s1 u 2%nat) (s1 v 2%nat) (s1 w 2%nat) /\
   tv_pt m sh sp U i fabs
-    = gen_tv3 fabs (s1 u 0) (s1 v 0) (s1 w 0) (s1 u 1) (s1 v 1) (s1 w 1) (s1 u 2) (s1 v 2) (s1 w 2) /\
-  div_pt m sh sp U i = gen_divergence3 (s1 u 0) (s1 v 1) (s1 w 2) /\
+    = gen_tv3 fabs (s1 u 0%nat) (s1 v 0%nat) (s1 w 0%nat) (s1 u 1%nat) (s1 v 1%nat) (s1 w 1%nat) (s1 u 2%nat) (s1 v 2%nat) (s1 w 2%nat) /\
+  div_pt m sh sp U i = gen_divergence3 (s1 u 0%nat) (s1 v 1%nat) (s1 w 2%nat) /\
   elasticity_pt m sh sp U i lam mu
-    = gen_elasticity3 lam mu (s1 u 0) (s1 u 1) (s1 u 2) (s1 v 0) (s1 v 1) (s1 v 2) (s1 w 0) (s1 w 1) (s1 w 2).
+    = gen_elasticity3 lam mu (s1 u 0%nat) (s1 u 1%nat) (s1 u 2%nat) (s1 v 0%nat) (s1 v 1%nat) (s1 v 2%nat) (s1 w 0%nat) (s1 w 1%nat) (s1 w 2%nat).
 Proof. exact gen3_ok. Qed.
 Print Assumptions C17_gen_coefficients_3d.
 
